@@ -20,8 +20,14 @@ From DW Require Export PyStr.
    call raises TypeError (datetime, Any, abstract collections) *)
 Inductive conc := CInt | CStr | CFloat | CBool | CBytes | CTuple | CFrozenset
                 | CList | CDict | CSet | CNoZero
-                | COrdDict | CDefDict | CCounter | CMyList.   (* subclasses of dict / list: OrderedDict,
+                | COrdDict | CDefDict | CCounter | CMyList    (* subclasses of dict / list: OrderedDict,
                                                                  defaultdict, Counter, a user list subclass *)
+                | CMySet                                      (* a user subclass of set *)
+                | CUserObj                                    (* a user class with a no-argument constructor that is
+                                                                 not a collection: its "zero value" is ONE instance,
+                                                                 made when the class using it is created *)
+                | CDeque.                                     (* collections.deque: mutable, but not a list/dict/set:
+                                                                 one shared instance as well *)
 
 Inductive factory :=
 | FacConc (c : conc)        (* default_factory=list / str / ... *)
@@ -40,7 +46,7 @@ Definition is_prop (v : value) : bool := match v with VPropObj => true | _ => fa
 
 Definition has_zero (c : conc) : bool := match c with CNoZero => false | _ => true end.
 Definition mutable (c : conc) : bool :=
-  match c with CList | CDict | CSet | COrdDict | CDefDict | CCounter | CMyList => true | _ => false end.
+  match c with CList | CDict | CSet | COrdDict | CDefDict | CCounter | CMyList | CMySet => true | _ => false end.
 
 Definition zero (c : conc) : value :=
   match c with
